@@ -209,6 +209,19 @@ def check(prop, tier, seed, t0):
                     violations.append((res, o))
                 else:
                     undecided.append('%s: %s (%s)' % (o['id'], v, o['backend']))
+    # continuous translation check: the executor in concrete mode must agree with CPython on the functions under contract
+    xc_cases, xc_bad, xc_fns = 0, [], 0
+    for c in cs:
+        if c.assumed:
+            continue
+        try:
+            ncase, bad = native.crosscheck(c.target, seed, 3 if tier == 'quick' else 25, reg)
+        except Exception as ex:
+            ncase, bad = 0, [dict(inputs=None, engine='cross-check crashed: %s' % str(ex)[:200], cpython='')]
+        xc_fns += 1
+        xc_cases += ncase
+        for b in bad:
+            xc_bad.append(dict(function=c.target, **b))
     # findings recorded as an excluded precondition of a contract: the witness is replayed natively on every run
     for f in known['findings']:
         if f.get('kind') != 'precondition':
@@ -288,6 +301,7 @@ def check(prop, tier, seed, t0):
                callee_contracts_used=sorted(used), by_backend=by_backend, solver_time_s=round(solver_time, 3),
                bounded_checks=bounded, known_findings=kf_lines, undecided=undecided, violations=viol_records,
                consistency_unconfirmed=unconfirmed,
+               translation_crosscheck=dict(functions=xc_fns, cases=xc_cases, mismatches=xc_bad[:5]),
                source_sha256=frontend.source_hashes(), repo=frontend.REPO,
                explanation=plan.get('explanation', ''), not_decided=plan.get('not_decided', []))
     ev = dict(property_id=prop, tier=tier, seed=seed, level=level, coverage=cov,
@@ -306,6 +320,11 @@ def check(prop, tier, seed, t0):
     for b in bounded:
         if b.get('failures'):
             pass
+    if xc_bad and not n_viol:
+        # the engine disagrees with CPython on the unchanged semantics of a function: the machinery, not the code, is at fault
+        for b in xc_bad[:3]:
+            print('CHECKER-ERROR translation cross-check: %s engine=%s cpython=%s inputs=%s' % (b['function'], b['engine'], b['cpython'], b['inputs']))
+        return 3
     if crashed:
         for c in crashed:
             print('CHECKER-ERROR %s: %s' % (c.get('name'), c.get('detail')))
